@@ -242,7 +242,7 @@ def oracle(stream, header, ops, obs):
                 while par[x] != x:
                     x = par[x]
                 return x
-            ok = len(te) == len(tn) - 1
+            ok = len(te) == len(tn) - 1 or (not tn and not te)      # no terminal: the empty graph
             for (s, t, w) in te:
                 if s not in par or t not in par or find(s) == find(t):
                     ok = False
